@@ -65,6 +65,20 @@ void failf(const struct filespec *f, const char *fmt, ...)
   PROP(fail_expected, "a fatal data error is reported only for input that is really invalid");
   CUT();
 }
+#ifdef REAL_HEAP
+/* further symbols the separately compiled process.c unit refers to (never reached from the heap helpers) */
+#include <time.h>
+void display(const char *fmt, ...) { (void)fmt; }
+void failx(int x, const char *fmt, ...) { (void)x; (void)fmt; CUT(); }
+void failfx(const struct filespec *f, int x, const char *fmt, ...) { (void)f; (void)x; (void)fmt; CUT(); }
+void halt(void) {}
+void xraise(int sig) { (void)sig; }
+struct timespec ts_now(void) { struct timespec t = { 0, 0 }; return t; }
+bool ts_before(struct timespec a, struct timespec b) { (void)a; (void)b; return false; }
+struct timespec ts_add_nano(struct timespec a, long n) { (void)n; return a; }
+double ts_diff(struct timespec a, struct timespec b) { (void)a; (void)b; return 0; }
+const struct process compression = { 0, 0, 0, 0, 0, 0 };
+#endif
 void sched_lock(void) {}
 void sched_unlock(void) {}
 void source_close(void) {}
